@@ -1000,7 +1000,7 @@ def tie(ctx):
         if "case" in rp:
             corpus.append(rp["case"])
 
-    secs = [f(ctx, fixed, corpus) for f in (_sec0, _sec1, _sec2, _sec3, _sec4, _sec5)]
+    secs = [f(ctx, fixed, corpus) for f in (_sec0, _sec1, _sec2, _sec3, _sec4, _sec5, _sec_named)]
     all_lines, spans = [], []
     for g in secs:
         try:
@@ -1395,6 +1395,74 @@ def _sec5(ctx, fixed, corpus):
                           {"case": {"kind": "comp", "n": nlen, "es": es}, "real": out, "oracle": want})
         if out != model:
             ctx.broke(f"correspondence: comprehension fold on `{line}`: python={out} lean={model}")
+
+
+def _sec_named(ctx, fixed, corpus):
+    """unpacking with a name on BOTH sides of the star (`x, *r, x = xs`): targets are bound left to right, so the rightmost
+    occurrence wins (Python).  Lowered probe vs `emitUnpackNamed` (assignment order of `_assign_array`) vs Python itself."""
+    import c19_ssa as S
+    import feed
+    rng = ctx.rng
+    shapes = [(1, 1, 3), (1, 1, 4), (2, 2, 5), (1, 2, 4), (2, 1, 4), (3, 2, 6)]
+    if not ctx.quick:
+        shapes += [(l, r, l + r + k) for l in range(1, 4) for r in range(1, 4) for k in (0, 1, 2)]
+    cases, lines = [], []
+    for c in corpus:
+        if c.get("kind") == "unpacknamed":
+            shapes.insert(0, (c["l"], c["r"], c["n"]))
+    for (l, r, nlen) in shapes:
+        for _rep in range(2):
+            # names in pattern order: left names 0..l-1, star = 100, right targets reuse left names with probability 1/2
+            left = list(range(l))
+            right = [rng.choice(left) if rng.random() < 0.6 else 10 + k for k in range(r)]
+            if _rep == 0:
+                right[-1] = left[0]  # `x, ..., *r, ..., x`
+            if rng.random() < 0.3 and l >= 2:
+                left[1] = left[0]    # duplicates on the same side too
+            names = left + [100] + right
+            def nm(x):
+                return "mid" if x == 100 else f"v{x}"
+            pat = ", ".join([nm(x) for x in left] + ["*mid"] + [nm(x) for x in right])
+            distinct = list(dict.fromkeys(names))
+            rty = ", ".join(f"array[int, {nlen - l - r}]" if x == 100 else "int" for x in distinct)
+            src = (f"@guppy\ndef up(xs: array[int, {nlen}] @owned) -> tuple[{rty}]:\n    {pat} = xs\n"
+                   f"    return {', '.join(nm(x) for x in distinct)}\n")
+            m = _lower(src)
+            try:
+                h = feed.lower(m.up).hugr
+                prog, _sig = _block_prog(h, "up")
+                prog = _strip_return_tuple(prog)
+                err = None
+            except Exception as e:  # noqa: BLE001
+                prog, err = None, e
+            finally:
+                feed.unload(m)
+            cases.append((l, r, nlen, names, distinct, pat, src, prog, err))
+            lines.append(f"(emit unpacknamed {l} {r} 1 {nlen} ({' '.join(map(str, names))}))")
+    reps = yield lines
+    for (l, r, nlen, names, distinct, pat, src, prog, err), model in zip(cases, reps):
+        case = {"kind": "unpacknamed", "l": l, "r": r, "n": nlen, "names": names}
+        ctx.count(case, nontrivial=True, kind="unpack-named")
+        key = f"input:unpack `{pat} = xs` n={nlen}"
+        if prog is None:
+            ctx.violation(key, f"unpacking probe is not compiled: {type(err).__name__}: {err}", {"case": case, "source": src})
+            continue
+        xs = [10 + k for k in range(nlen)]
+        env = {}
+        exec(f"{pat} = xs", {"xs": list(xs)}, env)  # noqa: S102  Python's own left-to-right binding
+        def nm(x):
+            return "mid" if x == 100 else f"v{x}"
+        want = ("ok", [("arr", tuple(env["mid"])) if x == 100 else ("elem", env[nm(x)]) for x in distinct])
+        got = py_run(prog, [("arr", tuple(xs))])
+        if unknown_op(got):
+            ctx.broke(f"named unpack probe: operation without modelled semantics: {got[1]}")
+        elif got != want:
+            ctx.violation(key, f"`{pat} = xs` with xs = {xs}: the lowered op list binds {[nm(x) for x in distinct]} to "
+                          f"{show_result(got)}; Python (targets bound left to right, the rightmost occurrence of a name wins) gives "
+                          f"{show_result(want)}", {"case": case, "source": src, "extracted": _sexp(prog), "real": show_result(got),
+                                                   "oracle": show_result(want)})
+        if _sexp(prog) != model:
+            ctx.broke(f"T-obj: lowering of `{pat} = xs` differs from emitUnpackNamed (real={_sexp(prog)} model={model})")
 
 
 def S_parse_some(r):
